@@ -41,6 +41,10 @@ TrRequest ==
   /\ LET r == IF Ev1.kind = "hc" THEN ResolveHC(Ev1.k) ELSE Resolve(Ev1.k, Ev1.kind)
          hit == Ev1.kind # "hc" /\ Valid(cache[Ev1.k], InvFor(Ev1.kind))
          c == IF Ev1.got # r.ans THEN (IF hit THEN "BAD_CHECKCACHE_ENTRY_CONTENT" ELSE IF Ev1.got = cache[Ev1.k].val THEN "BAD_CHECKCACHE_INVALID_ENTRY_SERVED" ELSE "BAD_CHECKCACHE_RESULT")
+              \* the code does what the design does - including the design's hazard (CheckCache_dispatch.cfg violates
+              \* NoStaleAfterRun): a "check" request served stale although a run that began after the last write has
+              \* ended, because a parent entry was computed from a stale child inside the window.  Known finding KF-27.
+              ELSE IF Ev1.kind = "check" /\ freshSince /\ r.ans # Truth(ver) THEN "KF_CheckCacheParentFromStaleChild"
               ELSE IF Ev1.kind = "hc" THEN "OK_CHECKCACHE_BYPASS" ELSE IF hit THEN "OK_CHECKCACHE_HIT" ELSE "OK_CHECKCACHE_MISS"
      IN /\ cache' = r.c
         /\ stale' = (stale \/ (freshSince /\ r.ans # Truth(ver)))
